@@ -89,9 +89,11 @@ type Invocation struct {
 	NS, Name   string
 	VTimeUnix  int64
 	VTimeNanos int64
+	EndVTimeNanos int64 // virtual time when the invocation returned (differs from VTimeNanos only in N mode)
 	Mode       string
 	Calls      []*Call
 	Dead       bool // process stopped by an injected fault
+	Nested     bool // another actor acted between two calls of this invocation (N mode)
 	ResultStr  string
 	Err        error
 	Panic      string
@@ -151,6 +153,9 @@ func (c *Client) Begin(id int, controller, ns, name, mode string) *Invocation {
 // End closes the current invocation.
 func (c *Client) End() {
 	c.S.mu.Lock()
+	if c.Cur != nil {
+		c.Cur.EndVTimeNanos = c.S.Now().UnixNano()
+	}
 	c.Cur = nil
 	c.S.mu.Unlock()
 }
